@@ -717,6 +717,12 @@ class Gen:
                 if hi >= W and hi - n + 1 >= 0:
                     one(W, fld(u, [('r', hi - n + 1, hi)] if n > 1 else [('s', hi)]), 'reject', 'hi=%s' % ('W' if hi == W else 'W+1' if hi == W + 1 else 'S-1' if hi == S - 1 else 'S' if hi == S else 'S+8'))
             one(W, fld(u, [('r', W - n, W - 1)] if n > 1 else [('s', W - 1)]), 'accept', 'hi=W-1')
+            # strides so large that (count - 1) * stride overflows the macro's usize arithmetic (defect D6), or do not parse
+            if k < 6:
+                for st, tag in ((1 << 63, 'stride=2^63'), ((1 << 64) - 1, 'stride=2^64-1'), (1 << 32, 'stride=2^32'),
+                                ((1 << 63) + 1, 'stride=2^63+1'), (1 << 64, 'stride=2^64')):
+                    one(W, fld({'k': 'u', 'n': 1}, [('s', 0)], count=3, stride=st), 'reject', tag)
+                one(W, fld({'k': 'u', 'n': 1}, [('s', 0)], count=5, stride=1 << 62), 'reject', 'count=5,stride=2^62')
             # bool out of bounds
             one(W, fld({'k': 'bool'}, [('s', W)]), 'reject', 'bool-bit=W')
             if S > W:
